@@ -223,7 +223,7 @@ func (e *Engine) info(fn *ssa.Function) *fnInfo {
 				e.redirFns[rn] = rf
 			}
 			fi.redirect = rf
-		} else if o.Pkg != nil && deniedPkg(o.Pkg.Pkg.Path()) {
+		} else if o.Pkg != nil && deniedPkg(o.Pkg.Pkg.Path()) && !allowedFuncs[fi.name] {
 			fi.deny = true
 		} else if o.Pkg == nil && fn.Signature.Recv() != nil {
 			// wrapper methods of denied packages have no Pkg; resolved through the callee
@@ -246,12 +246,19 @@ func (e *Engine) info(fn *ssa.Function) *fnInfo {
 // packages whose bodies are never interpreted: reaching them without an intrinsic or redirect is an un-modelled call.
 var deniedPrefixes = []string{
 	"os", "syscall", "net", "reflect", "runtime", "encoding/json", "encoding/xml", "crypto", "hash", "fmt",
-	"log", "context", "sync", "internal/poll", "internal/syscall", "internal/reflectlite", "unsafe",
+	"log", "sync", "internal/poll", "internal/syscall", "internal/reflectlite", "unsafe",
 	"github.com/gofiber", "github.com/valyala", "github.com/aws", "github.com/pkg/xattr", "golang.org/x/sys",
 	"github.com/oklog", "github.com/google/uuid", "math/rand", "os/exec", "io/ioutil",
 	"github.com/Azure", "github.com/nats-io", "github.com/segmentio", "github.com/hashicorp", "github.com/go-ldap",
 	"github.com/DataDog", "github.com/smira", "github.com/urfave", "github.com/versity/scoutfs-go", "mime", "compress",
 	"text/template", "html", "database", "archive", "debug", "plugin", "testing", "math/big", "encoding/gob",
+}
+
+// small pure functions inside otherwise denied packages
+var allowedFuncs = map[string]bool{
+	"(*fmt.wrapError).Unwrap": true, "(*fmt.wrapError).Error": true,
+	"(*fmt.wrapErrors).Unwrap": true, "(*fmt.wrapErrors).Error": true,
+	"(syscall.Errno).Is": true, "(syscall.Errno).Temporary": true, "(syscall.Errno).Timeout": true,
 }
 
 func deniedPkg(path string) bool {
